@@ -11,7 +11,8 @@ Record case := mkCase {
   k_cfg : cfg; k_t0 : Z;
   k_hosts : list (brow * list nat); k_svcs : list (brow * list nat); k_tps : list Z;
   k_events : list event;
-  k_obs : list obs }.
+  k_obs : list obs;
+  k_wins : list (list Z) }.   (* per step: window bounds of the delta fetches the backend received *)
 
 Fixpoint list_eqb {A} (eqb : A -> A -> bool) (a b : list A) : bool :=
   match a, b with
@@ -36,28 +37,53 @@ Fixpoint vers_mono (prev : list Z) (rows : list brow) : bool :=
 Record expected := mkExp {
   x_step : nat;     (* index of the first step that fails *)
   x_kind : nat;     (* 0: served rows differ from the model; 1: a served row is no version of its object
-                       (torn); 2: a served row is older than one served before *)
+                       (torn); 2: a served row is older than one served before; 3: the window bounds lmd
+                       asked the backend for differ from the model's (next window = where the last one ended) *)
   x_model : obs }.  (* what the model serves after that step *)
 
+Definition base : Z := 1700000000.
+
+(** the bounds (lower, upper; relative to [base]; upper 0 = the wall clock of a
+    periodicUpdate) of the hosts and of the services fetch of a complete run *)
+Definition exp_windows (c : cfg) (s : st) (e : event) : list Z :=
+  match e with
+  | EDelta from until AbNo =>
+      if 0 <? from then [from - c_off c - base; until - c_off c - base; from - c_off c - base; until - c_off c - base] else []
+  | ETick now until AbNo =>
+      if now <? lu s + c_interval c then [] else
+      let from := if warn s then lu s else if force s then 0 else lu s in
+      if 0 <? from then [from - c_off c - base; 0; from - c_off c - base; 0] else []
+  | EResume now until =>
+      if warn s then [] else
+      if 0 <? lu s then [lu s - c_off c - base; 0; lu s - c_off c - base; 0] else []
+  | _ => []
+  end.
+
+Definition windows_ok (c : cfg) (s : st) (e : event) (w : list Z) : bool :=
+  match w with
+  | [-1] => true           (* no complete update run in this step *)
+  | _ => zlist_eqb w (exp_windows c s e)
+  end.
+
 Fixpoint walk (c : cfg) (i : nat) (s : st) (pv : list Z * list Z) (evs : list event) (os : list obs)
-  : option expected :=
-  match evs, os with
-  | [], [] => None
-  | e :: er, o :: orr =>
+    (ws : list (list Z)) : option expected :=
+  match evs, os, ws with
+  | [], [], _ => None
+  | e :: er, o :: orr, w :: wr =>
       let s' := step c s e in
-      if negb (obs_eqb (observe s') o) then Some (mkExp i 0 (observe s'))
+      if negb (windows_ok c s e w) then Some (mkExp i 3 (observe s'))
+      else if negb (obs_eqb (observe s') o) then Some (mkExp i 0 (observe s'))
       else if negb (rows_whole c (o_hosts o) (t_b (hosts s')) && rows_whole c (o_svcs o) (t_b (svcs s')))
       then Some (mkExp i 1 (observe s'))
       else if negb (vers_mono (fst pv) (o_hosts o) && vers_mono (snd pv) (o_svcs o))
       then Some (mkExp i 2 (observe s'))
-      else walk c (S i) s' (map r_ver (o_hosts o), map r_ver (o_svcs o)) er orr
-  | _, _ => Some (mkExp i 0 (observe s))
+      else walk c (S i) s' (map r_ver (o_hosts o), map r_ver (o_svcs o)) er orr wr
+  | _, _, _ => Some (mkExp i 0 (observe s))
   end.
 
 (** compact notation of the cases file: times are relative to [base] (0 = never),
     a row is the flat list lc st scan(5) nc ver ints(5) strs(6) exec, an
     observation equal to the previous one is [None] *)
-Definition base : Z := 1700000000.
 Definition tm (v : Z) : Z := if v =? 0 then 0 else base + v.
 
 Definition row_of (l : list Z) : brow :=
@@ -78,6 +104,7 @@ Definition xM (svc : bool) (k : nat) (t : Z) (check stamp : bool) (rest : list Z
   end.
 Definition xD (from until : Z) (ab : abort) : event := EDelta (tm from) (tm until) ab.
 Definition xT (now : Z) (ab : abort) : event := ETick (tm now) (tm 1000000000) ab.
+Definition xR (now : Z) : event := EResume (tm now) (tm 1000000000).
 
 Definition obs_of (o : list (list Z) * list (list Z) * list Z) : obs :=
   mkObs (map row_of (fst (fst o))) (map row_of (snd (fst o))) (snd o).
@@ -91,17 +118,17 @@ Fixpoint fill (prev : obs) (l : list (option (list (list Z) * list (list Z) * li
   end.
 
 Definition xCase (c : cfg) (t0 : Z) (hs ss : list (list Z * list nat)) (tps : list Z) (evs : list event)
-    (os : list (option (list (list Z) * list (list Z) * list Z))) : case :=
+    (os : list (option (list (list Z) * list (list Z) * list Z))) (ws : list (list Z)) : case :=
   let h := objs_of hs in
   let s := objs_of ss in
   mkCase c (tm t0) h s tps evs
-         (fill (mkObs (map (fun o => norm c (fst o)) h) (map (fun o => norm c (fst o)) s) tps) os).
+         (fill (mkObs (map (fun o => norm c (fst o)) h) (map (fun o => norm c (fst o)) s) tps) os) ws.
 
 Definition start (k : case) : st := init_st (k_cfg k) (k_t0 k) (k_hosts k) (k_svcs k) (k_tps k).
 
 Definition result (k : case) : option expected :=
   let s := start k in
-  walk (k_cfg k) 0 s (map r_ver (t_c (hosts s)), map r_ver (t_c (svcs s))) (k_events k) (k_obs k).
+  walk (k_cfg k) 0 s (map r_ver (t_c (hosts s)), map r_ver (t_c (svcs s))) (k_events k) (k_obs k) (k_wins k).
 
 Definition check (k : case) : bool := match result k with None => true | Some _ => false end.
 
